@@ -37,7 +37,7 @@ ANCHORS = [
 ]
 REQUIRED = ["q:aggregate_current", "q:aggregate_power", "q:constraint_currents", "q:constraint_currents_reordered",
             "q:constraint_currents_duplicates", "q:energy", "q:demands_met", "q:demands_met_threshold_below_full_cut_discriminating", "q:unbalance", "q:unbalance_nan_positions",
-            "q:datetimes", "runs_longer_than_8192_periods", "q:datetimes_partial_run", "analysis_called_mid_run_then_run_resumed", "regime:hetero-voltage", "regime:mixed-sign", "regime:constraint-free"]
+            "q:datetimes", "runs_longer_than_8192_periods", "q:datetimes_partial_run", "analysis_called_mid_run_then_run_resumed", "stochastic_network_runs_judged", "stochastic_runs_with_never_served_sessions", "regime:hetero-voltage", "regime:mixed-sign", "regime:constraint-free"]
 BUDGET_S = {"quick": 240, "thorough": 3000}
 
 
@@ -56,6 +56,19 @@ def cases(seed, tier):
         # constraints registered in a shuffled order so that network order != alphabetical / descriptor-sorted order
         rng.shuffle(d["network"]["constraints"])
         out.append({"desc": d, "qseed": rng.randrange(1 << 30)})
+    # networks that assign spaces at run time, more cars than spaces (some sessions never get one)
+    for i in range(n // 10):
+        d = gen.scenario(rng, sched=rng.choice(["uncontrolled", "scripted"]), kinds=("EVSE", "FR"), nmax=3, sess_max=2, noise_p=0.0, inf_evse_p=0.0,
+                         mode="full", mr=1)
+        ids_ = [s_["id"] for s_ in d["network"]["stations"]]
+        sess_ = []
+        for k in range(rng.randint(len(ids_) + 1, len(ids_) + 6)):
+            a = rng.randint(0, 6)
+            req = rng.choice([0.3, 3, 25])
+            sess_.append({"id": f"q{k}", "station": rng.choice(ids_), "arrival": a, "departure": a + rng.randint(1, 6), "requested": req,
+                          "est_dep": a + 3, "battery": gen.rand_battery(rng, req, ("ideal",))})
+        d["sessions"], d["recompute"] = sess_, []
+        out.append({"desc": d, "qseed": rng.randrange(1 << 30), "stochastic": True, "early": rng.random() < 0.4})
     # very long trajectories (a month of 5-minute periods and more): sessions charging near the end as well
     for _ in range(1 if tier == "quick" else 6):
         d = gen.scenario(rng, sched="scripted", nmax=4, sess_max=5, constraint_free_p=0.0, mr=1, max_len=1, p_empty=0.0, p_st=1.0, mode="full",
@@ -85,8 +98,51 @@ def close(a, b):
         bool(np.array_equal(np.isnan(a), np.isnan(b)))
 
 
+def _run_stochastic(case, obs):
+    """Completed simulation on the contrib StochasticNetwork with more cars than spaces (some never get a space): energy totals,
+    proportion, aggregates and the datetime array against the recorded trajectory and the descriptor's requests."""
+    import acnportal.acnsim as acnsim
+    from acnportal.contrib.acnsim.network import StochasticNetwork
+    d = case["desc"]
+    random.seed(case["qseed"])
+    sim, evs, probe = simrun.run_traced(d, snapshots=False, net_cls=StochasticNetwork, net_kw={"early_departure": bool(case.get("early"))})
+    if probe.exception is not None:
+        obs.ev("run_raised_not_judged")
+        return
+    obs.ev("stochastic_network_runs_judged")
+    if getattr(sim.network, "never_charged", 0):
+        obs.ev("stochastic_runs_with_never_served_sessions")
+    V = [s["voltage"] for s in d["network"]["stations"]]
+    R = np.array(sim.charging_rates, dtype=float)
+    T, n, period = R.shape[1], R.shape[0], d["period"]
+    wit = dict(scenario=d, stochastic=True)
+    pw = [math.fsum(V[i] * R[i][t] for i in range(n)) / 1000.0 for t in range(T)]
+    tot_r = math.fsum(s["requested"] for s in d["sessions"])
+    tot_d = math.fsum(pw) * period / 60.0
+    with warnings.catch_warnings():
+        warnings.simplefilter("ignore")
+        checks = [("aggregate_power", acnsim.aggregate_power(sim), pw),
+                  ("aggregate_current", acnsim.aggregate_current(sim), [math.fsum(R[i][t] for i in range(n)) for t in range(T)]),
+                  ("total_energy_requested", acnsim.total_energy_requested(sim), tot_r),
+                  ("total_energy_delivered", acnsim.total_energy_delivered(sim), tot_d),
+                  ("proportion_of_energy_delivered", acnsim.proportion_of_energy_delivered(sim), tot_d / tot_r)]
+        for th in (0.1, 0.5):
+            met = sum(1 for s in d["sessions"] if s["requested"] - sim.ev_history[s["id"]].energy_delivered < th) / len(d["sessions"])
+            checks.append((f"proportion_of_demands_met({th})", acnsim.proportion_of_demands_met(sim, threshold=th), met))
+    for nm, got, exp in checks:
+        obs.evals += 1
+        obs.ev("q:stochastic:" + nm.split("(")[0])
+        if not close(got, exp):
+            obs.violate("analysis:" + nm.split("(")[0], f"stochastic network: {nm}: got {np.asarray(got, dtype=float).ravel()[:5].tolist()} expected "
+                        f"{np.asarray(exp, dtype=float).ravel()[:5].tolist()}", **wit)
+    obs.nontrivial()
+    obs.sample = {"kind": "stochastic", "stations": n, "sessions": len(d["sessions"]), "never_charged": getattr(sim.network, "never_charged", None)}
+
+
 def run_case(case, obs):
     import acnportal.acnsim as acnsim
+    if case.get("stochastic"):
+        return _run_stochastic(case, obs)
     d = case["desc"]
     rng = random.Random(case["qseed"])
     if rng.random() < 0.25 and not case.get("long"):
